@@ -20,7 +20,7 @@ from harness import tlc, lvskit as K
 from harness.tlaval import to_json, seq
 
 WALK_INVS = ['WalkEqualsRec', 'ContextRestored', 'StackShape']
-WALK_ACTS = ['StepYield', 'StepValueHit', 'StepValueMiss', 'StepPatternSkip', 'StepPatternTake', 'StepExhausted']
+WALK_ACTS = ['StepStart', 'StepYield', 'StepValueHit', 'StepValueMiss', 'StepPatternSkip', 'StepPatternTake', 'StepExhausted']
 
 
 def walk_cfg(path, maxnodes, maxlen, corrupt='none', count=True, dev=False, invariants=(), properties=()):
@@ -186,7 +186,7 @@ def run(ctx):
 
 
 def stage_a(ctx, procs):
-    mn, ml = ctx.pick((3, 3), (4, 3))
+    mn, ml = ctx.pick((3, 2), (4, 3))
     cfg = walk_cfg(os.path.join(tlc.BUILD, 'LvsTree_walk_c11_%s.cfg' % ctx.tier), mn, ml,
                    invariants=WALK_INVS, properties=['YieldsSoundA'])
     wits = ('W_Backtracked', 'W_PreboundUsed', 'W_DeepYield')
@@ -198,7 +198,7 @@ def stage_a(ctx, procs):
     dp = walk_cfg(os.path.join(tlc.BUILD, 'LvsTree_walk_c11_d.cfg'), 3, 2, dev=True, invariants=['WalkEqualsDocumented'])
     jobs.append(lambda: tlc.run('LvsTree', dp, workers=1, heavy=False))
     # laws of the source reference on the small-schema family
-    jobs.append(lambda: enum_run(ctx, 'laws', ctx.pick(80, 8), procs, tag='a'))
+    jobs.append(lambda: enum_run(ctx, 'laws', ctx.pick(79, 7), procs, tag='a'))
     res = K.par(jobs)
     r = res[0]
     ctx.add_tlc('LvsTree walk machine MaxNodes=%d MaxLen=%d' % (mn, ml), r)
@@ -229,7 +229,9 @@ def stage_a(ctx, procs):
 
 def stage_b(ctx, procs):
     # ---- schemas
-    names, items = enum_run(ctx, 'schemas', ctx.pick(16, 1), procs, tag='b')
+    (names, items), (tnames, titems) = K.par([
+        lambda: enum_run(ctx, 'schemas', ctx.pick(17, 1), procs, tag='b'),
+        lambda: enum_run(ctx, 'trees', 1, ctx.pick(2, procs), maxnodes=ctx.pick(3, 4), tag='t')])
     bad = []
     nrej = 0
     for it in items:
@@ -273,7 +275,6 @@ def stage_b(ctx, procs):
         ver = K.judge(ctx, [strip(r) for r in recs], 'c11b', procs)
         classify_and_report(ctx, 'C11', recs, ver, what_m)
     # ---- trees
-    tnames, titems = enum_run(ctx, 'trees', ctx.pick(1, 1), procs, maxnodes=ctx.pick(3, 4), tag='t')
     ntree = 0
     for it in titems:
         tree = it[2]
